@@ -9,7 +9,7 @@ from harness import core
 from harness.core import Outcome
 
 ID = "C03"
-LEAN_TARGETS = ["BeyondVerif.Props.C03", "BeyondVerif.Witness.C03"]
+LEAN_TARGETS = ["BeyondVerif.Props.C03", "BeyondVerif.Props.C03b", "BeyondVerif.Props.C03c", "BeyondVerif.Props.C03d", "BeyondVerif.Props.C03e", "BeyondVerif.Witness.C03"]
 THEOREMS = [
     "BeyondVerif.C03.coef_table",
     "BeyondVerif.C03.offset_defined",
@@ -62,66 +62,119 @@ THEOREMS = [
     "BeyondVerif.C03.range_len_eq_length_iter",
     "BeyondVerif.C03.range_mem_of_iter",
     "BeyondVerif.C03.range_contains_iff",
+    "BeyondVerif.C03.changeScale_decomp",
+    "BeyondVerif.C03.tdb_pattern",
+    "BeyondVerif.C03.changeScale_drift_tdb",
+    "BeyondVerif.C03.changeScale_drift_le_one",
+    "BeyondVerif.C03.changeScale_instant_bound_all",
+    "BeyondVerif.C03.changeScale_observed_us",
+    "BeyondVerif.C03.to_ut1_record",
+    "BeyondVerif.C03.to_ut1_step",
+    "BeyondVerif.C03.to_ut1_same_day",
+    "BeyondVerif.C03.to_ut1_second_reading",
+    "BeyondVerif.C03.to_ut1_safe_zone",
+    "BeyondVerif.C03.from_ut1_keeps_instant",
+    "BeyondVerif.C03.range_iter_terminates",
+    "BeyondVerif.C03.range_fuel_irrelevant",
+    "BeyondVerif.C03.range_iter_total",
+    "BeyondVerif.C03.tdb_lipschitz",
+    "BeyondVerif.C03.tdbTicksR_slow",
+    "BeyondVerif.C03.changeScale_tdb_formula",
+    "BeyondVerif.C03.day_of_double_own",
+    "BeyondVerif.C03.day_of_double_utc",
+    "BeyondVerif.C03.eopGetR_of_day",
+    "BeyondVerif.C03.eopRawR_eq_exact",
+    "BeyondVerif.C03.eopForF_record_of_utc_day",
+    "BeyondVerif.C03.src_normalise",
+    "BeyondVerif.C03.src_toScale",
+    "BeyondVerif.C03.src_add",
+    "BeyondVerif.C03.src_cmp",
+    "BeyondVerif.C03.src_contains",
+    "BeyondVerif.C03.src_cond",
+    "BeyondVerif.C03.src_len",
+    "BeyondVerif.C03.src_range_agree",
     "BeyondVerif.C03W.label_day_keeps_instant",
     "BeyondVerif.C03W.noon_keeps_instant",
     "BeyondVerif.C03W.utc_midnight_band_changes_instant",
+    "BeyondVerif.C03W.band_edge_is_sharp",
+    "BeyondVerif.C03W.three_roundings_exceed_1us",
+    "BeyondVerif.C03W.sub_microsecond_band_differs",
 ]
 LEVEL_TEXT = ("Lean theorems over an exact integer model (ticks of 1e-7 s) of Date / Timescale.offset / EopDb.get / DateRange, instantiated with the scale graph "
-              "(execution order), the _scale_*_minus_* method table (AST) and the IERS tables regenerated from /repo on each run: offsets defined, antisymmetric and "
-              "composable for all 36 pairs with the exact constants (decide on coefficient vectors); the constructor and _convert_to_scale keep the instant (omega); "
-              "change_scale moves the instant by at most 1.5 us of rounding plus the disagreement of the two EOP records — nothing between UTC/TAI/TT/GPS, at most 1.5 us (0.5 us from a "
-              "whole-microsecond reading) with UT1 when both dates carry the same record; the record of a date is the one tabulated for its UTC reading (second lookup of fix fc514f7); "
-              "d+t moves the clock reading by exactly t in every scale, (d+t)-d=t and associativity in TAI/TT/GPS unconditionally; comparisons/hash are those of the "
-              "microsecond-exact `_datetime`, agree with `-` and are functions of the instant; DateRange iteration is the arithmetic progression of length len, all members `in` the range, for both step signs (induction); "
-              "|TDB-TT| < 1.7 ms over R for the formula translated from the AST. 'As tabulated for that day': for every table with ascending dates and every mjd the TAI-UTC lookup returns "
-              "the value of the entry with the greatest date <= mjd (exactly at an entry's date the entry itself, one tick earlier the one before, nothing before the first entry), the record is a "
-              "function of the day number and is exactly (finals[day], that entry) — tied to SimpleEopDatabase.tai_utc / finals / EopDb.get at every entry date of tai-utc.dat exactly and +-1 us, "
-              "and to the readers on the text of the files. Exact differential correspondence of the compiled model with the real classes.")
+              "(execution order), the _scale_*_minus_* method table (AST) and the IERS tables regenerated from /repo on each run; the arithmetic of the Date methods (constructor "
+              "normalisation, _convert_to_scale, the divmod and the single constructor call of __add__, the five comparisons, __hash__) and DateRange.__contains__ / __iter__ / __len__ "
+              "are translated from the AST on every run (Generated/DateSrc.lean, a dedicated translator that refuses every other shape) and proved equal to the model (src_*). "
+              "Offsets defined, antisymmetric and composable for all 36 pairs with the exact constants (decide on coefficient vectors); the constructor and _convert_to_scale keep the instant "
+              "(omega); change_scale: exact error budget (changeScale_decomp: three timedelta roundings + the disagreement of the offsets), nothing between UTC/TAI/TT/GPS; for ALL 36 pairs, "
+              "TDB included, when both dates carry the same record: at most 1.6 us in the internal (_d,_s) and at most ONE microsecond in what the API observes (date2 - date1, ==, <, hash: "
+              "changeScale_observed_us) - the TDB-TT term enters through one difference of its values at two mjd arguments < 200 s apart, <= 1 tick, proved of the translated formula over R "
+              "(slope < 2.9e-5 s/day: tdb_lipschitz, tdbTicksR_slow); the record of a date is the one tabulated for its UTC reading; the open finding is quantified: a conversion to UT1 carries the record "
+              "found at the constructor's second reading and moves by exactly UT1-UTC(own day) - UT1-UTC(that day) +- 1 us (to_ut1_step), by nothing outside the band around UTC midnight whose width is "
+              "that difference (to_ut1_safe_zone; the band is sharp to the microsecond: Witness band_edge_is_sharp), a conversion from UT1 never moves (from_ut1_keeps_instant); the day number from a "
+              "double: Model/DateDbl.lean is Date.__init__'s mjd / mjd_utc in exact binary64 arithmetic (fl = round-to-nearest-even on rationals, fl_err: half an ulp), int(mjd) is the exact day "
+              "0.4 us away from own midnight, int(mjd_utc) 0.7 us away from UTC midnight, hence outside those bands the code carries the record of the UTC day (eopForF_record_of_utc_day); "
+              "d+t moves the clock reading by exactly t in every scale, (d+t)-d=t and associativity in TAI/TT/GPS unconditionally; comparisons/hash are those of the microsecond-exact "
+              "`_datetime`, agree with `-` and are functions of the instant; DateRange: every accepted range iterates in at most len+1 evaluations of its condition (range_iter_terminates: no fuel "
+              "hypothesis) over exactly len dates start+k*step, all `in` the range, both step signs; |TDB-TT| < 1.7 ms over R. 'As tabulated for that day': for every sorted table and every mjd the "
+              "TAI-UTC lookup returns the entry with the greatest date <= mjd, the record is a function of the day number - tied to the real lookups at every entry date exactly and +-1 us, and to the "
+              "readers on the text of the files. Exact differential correspondence of the compiled model with the real classes.")
 LEVEL_NOTE = ("Python keeps seconds of day in a double: the integer model is tied on microsecond-exact inputs by exact correspondence (1-4 us slack only where UT1's 0.1-us column or "
-              "the float TDB term enter, and where the double `mjd_utc` decides the day within 3 us of UTC midnight); 'same instant within 1 us' for UT1 is still false within one day's change of "
-              "UT1-UTC of UTC midnight (open finding, kernel-checked witness) and is proved as 1.5 us under 'same EOP record'; DateRange is modelled on instants")
-TECHNIQUE = "Lean 4 proof (omega / induction / kernel decide on regenerated tables / real analysis for the TDB bound) + exact model-implementation correspondence"
+              "the float TDB term enter); the day decision is additionally modelled in exact binary64 arithmetic and tied EXACTLY on the 0.1-us grid within 2 us of UTC midnight and on the neighbouring "
+              "doubles of midnight. 'Same instant within 1 us' holds of the observable difference for all pairs (theorem) but the internal representation moves by up to 1.5 us (three separate roundings; "
+              "kernel-checked witness, and 1.49 us measured on the real Date at the ties of the 0.1-us column): a statement about the property's tolerance, not a defect; it is still false by ~1 ms within one day's "
+              "change of UT1-UTC of UTC midnight (open finding, now quantified); DateRange is modelled on instants")
+TECHNIQUE = "Lean 4 proof (omega / induction / kernel decide on regenerated tables / real analysis for the TDB bound and slope / rational error analysis of binary64 rounding) + exact model-implementation correspondence"
 TRUSTED = [
-    "harness/props/C03.py extract: Timescale method table and Date constants from the AST, TDB formula through harness/py2lean.py, IERS tables through an independent "
-    "fixed-column decimal parser (checked on every run against the Lean column parsers of Model/EopFile.lean fed the text of the three files and against the real readers TaiUtc / Finals / "
-    "Finals2000A, every line; against EopDb.get for every day in the thorough tier, at every table abscissa and a sample of days in the quick tier)",
+    "harness/props/C03.py extract: Timescale method table and Date constants from the AST, TDB formula through harness/py2lean.py, the Date / DateRange method bodies through the dedicated translator "
+    "`date_src` (refuses unknown shapes), IERS tables through an independent fixed-column decimal parser (checked on every run against the Lean column parsers of Model/EopFile.lean fed the text of the "
+    "three files and against the real readers TaiUtc / Finals / Finals2000A, every line; against EopDb.get for every day in the thorough tier, at every table abscissa and a sample of days in the quick tier)",
     "harness/extract_graphs.py: the scale graph in execution order (shared with C20)",
     "correspondence: real Date / DateRange / Timescale.offset / EopDb.get / SimpleEopDatabase.tai_utc / .finals / TaiUtc / Finals / Finals2000A vs the compiled Lean model through microsecond observables "
-    "(_datetime, datetime, _offset, eop, d/s, -, comparisons, hash, len/iter/in, the readers' data)",
+    "(_datetime, datetime, _offset, eop, d/s, -, comparisons, hash, len/iter/in, the readers' data); the record picked by Date(d, s) / Date(mjd) / Date(datetime) vs Model/DateDbl.lean exactly",
+    "Model/DateDbl.lean `fl`: IEEE-754 binary64 round-to-nearest-even on exact rationals, normal range (CPython float arithmetic is binary64 with that rounding; float('decimal') and literals are correctly rounded)",
 ]
 ASSUMPTIONS = [
-    "Model/Date.lean is hand-written exact integer arithmetic; the code computes in doubles. Tied by exact correspondence on microsecond-exact inputs in 1973-2017 "
-    "(float error of `_s` about 1e-11 s; `_mjd` resolves 0.6 us, so distinct microseconds order correctly)",
-    "CPython datetime/timedelta microsecond rounding (half to even) is modelled by roundUs",
+    "Model/Date.lean is exact integer arithmetic (its method bodies proved equal to the translation of the source, Props/C03e.lean); the code computes in doubles. Tied by exact correspondence on "
+    "microsecond-exact inputs in 1973-2017 (float error of `_s` about 1e-11 s)",
+    "CPython datetime/timedelta microsecond rounding (half to even) is modelled by roundUs; at exact ties of the 0.1-us UT1-UTC column the float value decides in the code (the bounds proved use |rounding| <= 0.5 us only, "
+    "so they hold for either direction)",
     "DateRange is modelled on instants: `date += step` is `inst + step` by add_clock when the offset does not change along the range (TAI, TT, GPS always; UTC without leap second); "
     "correspondence runs the real DateRange on Date objects of the four uniform scales",
-    "the TDB-TT term enters the integer model as a parameter (any function); its bound is proved over R, its float evaluation compared to 1e-12 s",
+    "the TDB-TT term enters the integer model as a parameter; `TdbSlow` (<= 1.7 ms, <= 1 tick between arguments < 200 s apart) is proved of the translated formula rounded to ticks over R; that numpy's float "
+    "evaluation is within 1e-12 s of it is checked by correspondence, not proved",
+    "the exact-binary64 day model leaves out routes through TDB (numpy.sin has no exact model): for TDB dates the day decision within 0.7 us of UTC midnight is tied by the tolerant correspondence only",
 ]
 NOT_COVERED = [
     "'same instant within 1 us when UT1 is involved' is false of the current code when the UTC reading lies within one day's change of UT1-UTC (a few ms) of UTC midnight: UT1-UTC is a step "
-    "function of the UTC day (open finding C03-ut1-step-at-utc-midnight; Witness/C03.lean utc_midnight_band_changes_instant)",
-    "UT1/TDB round trip 'within 2 us' and 'UT1: within one day's change of UT1-UTC': oracle only",
+    "function of the UTC day (open finding C03-ut1-step-at-utc-midnight; quantified by to_ut1_step / to_ut1_safe_zone; Witness/C03.lean utc_midnight_band_changes_instant, band_edge_is_sharp)",
+    "UT1/TDB round trip 'within 2 us' and 'UT1: within one day's change of UT1-UTC': oracle only (one leg is bounded by changeScale_instant_bound_all)",
     "x, y, lod, dx, dy, dpsi, deps columns of the EOP record (used by frames, not by time scales)",
-    "the day number of `mjd_utc` is taken from a double (resolution 0.6 us): within that distance of UTC midnight the code may pick either neighbouring record; the model uses the exact day",
+    "the error of the double offset `scale.offset(mjd, 'UTC', eop)` against the exact tick offset (a few 1e-14 s) is not carried through eopForF_record_of_utc_day: the theorem is about the code's own UTC reading "
+    "`d + s/86400 + o/86400` with `o` the double",
     "leap-second windows (documented limitation of the library) except the statements that are unambiguous there: a UTC date from 00:00:00.000000 of the day an entry of tai-utc.dat takes effect "
-    "carries the new TAI-UTC, up to 23:59:59.999999 of the eve the old one (oracle family leap-day:*); Date.now, strptime, pickling",
+    "carries the new TAI-UTC, up to 23:59:59.999999 of the eve the old one (oracle family leap-day:*); Date.now, strptime, pickling, tz-aware datetimes, Date - datetime",
     "Model/EopFile.lean reads plain decimal literals in fixed columns (what the IERS files contain); exponents, inf/nan, underscores, tabs — which Python's float()/split() also accept — are rejected by the model; "
     "the dX/dY/LOD fall-back of the finals readers to the previous day is not modelled (not time-scale columns)",
     "the linear term of the pre-1972 entries of tai-utc.dat, `(MJD - 37300.) X 0.001296 S`, is ignored by the reader (field 6 only) and so by the model: TAI-UTC before 1972 is the constant term (outside the "
     "property's 1973-2017 anyway)",
 ]
 OPEN = [
-    "changeScale_instant_bound_partial: the property's 1 us for UT1 is proved as 1.5 us (three separate timedelta roundings; 0.5 us from a whole-microsecond clock reading) under the hypothesis "
-    "that both dates carry the same EOP record (mk_record_of_utc_day / records_agree say when); with TDB the drift of the TDB term between the two mjd arguments is a parameter",
-    "iteration terminates within len+1 iterations (fuel bound) is not stated; theorems are for every fuel with which the loop returns",
+    "changeScale_instant_bound_partial stays as the internal-representation statement (1.5 us + drift); the property's 'within one microsecond' is proved of the observable difference (changeScale_observed_us) and "
+    "refuted for the internal (_d,_s) (Witness three_roundings_exceed_1us: 1.2 us in exact arithmetic; 1.49 us measured on the real Date) - judged a matter of the property's tolerance",
+    "the hypothesis 'both dates carry the same EOP record' is discharged by to_ut1_safe_zone only for UTC sources; for TAI/TT/GPS sources mk_record_of_utc_day + records_agree give it case by case",
 ]
 RULE = ("correspondence: per scale / ordered pair random clock readings 1973-2017 (one third within 75 s of midnight, 12 % around leap seconds), constructors incl. seconds outside [0,86400) "
         "and dates outside the tables under the three policies, change_scale on all 36 pairs, +/- timedelta, compare/hash/difference of close instants, Timescale.offset with random EOP values, "
         "TDB formula, EopDb.get per day (every day in thorough), DateRange with both step signs / inclusive / incoherent / null plus a deterministic grid of range boundaries (exact multiples, +-1 us, whole-day and "
         "sub-second remainders, steps > 1 day); the lookups tai_utc / finals / EopDb.get AT the tables' abscissae in every tier: each of the 41 entries of tai-utc.dat exactly, +-1 us, +-1 s, +-12 h, the day before "
         "the first entry, first/last day of the finals files and their neighbours, holes, 150-200 random day boundaries (all in thorough); Date constructors / change_scale / + at every leap-second day of the finals "
-        "range exactly at 00:00:00 UTC, +-1 us, +-1 s (UTC) and +-5 us, +-1 s (other scales), Date(int mjd); the readers on every line of the three files and on perturbed copies; distinct = distinct request line. "
-        "oracle: the property's predicates on the real API with the IERS tables of tests/data/pole; tolerances 0 (uniform), 1 us (instant, UT1/TDB), 2 us (clock readings, UT1/TDB offsets)")
+        "range exactly at 00:00:00 UTC, +-1 us, +-1 s (UTC) and +-5 us, +-1 s (other scales), Date(int mjd); the readers on every line of the three files and on perturbed copies; the day decision: Date(d, s) / Date(mjd) / "
+        "Date(datetime) in UTC, TAI, TT, GPS, UT1 with the UTC reading on the 0.1-us grid within 2 us of UTC midnight, +-2 ulps of the double at midnight, negative seconds, seconds = 86400, vs the exact binary64 model (exactly), "
+        "and binary64 model vs exact-day model (may differ only within 0.7 us); distinct = distinct request line. "
+        "oracle: the property's predicates on the real API with the IERS tables of tests/data/pole; tolerances 0 (uniform), 1 us (instant, UT1/TDB), 2 us (clock readings, UT1/TDB offsets), 1.5 us + 4e-8 s on the internal (_d,_s); "
+        "change_scale also from clock readings that are not whole microseconds (Date(d, s)); every constructor form against the datetime form; dates DERIVED by +, -, two additions, DateRange steps from operands in the band "
+        "after own-scale midnight (own day != UTC day), on every leap-second day and random days, sums staying in / leaving the own-scale day, and the mirror: EOP record, offset, ==, hash, UTC/UT1/TAI readings equal to those of "
+        "the directly constructed date, record = the IERS columns of its UTC day, TAI-UTC off the clocks, (d+t)-d=t")
 SCALES = ["UT1", "GPS", "TDB", "UTC", "TAI", "TT"]
 UNIFORM = ("UTC", "TAI", "TT", "GPS")
 T0 = _dt.datetime(1858, 11, 17)
@@ -414,6 +467,7 @@ def check_pair(out, rng, sa, sb, us):
     elif abs(diff) > 1:
         out.fail(family_scale_pair(a, b, sa, sb, diff), "converted date differs from the original instant by more than 1 us", inp,
                  observed=f"{diff} us", expected="<= 1 us")
+    check_internal(out, a, b, sa, sb, inp, diff)
     # back to the same clock reading
     c = b.change_scale(sa)
     back = td_us(c.datetime - a.datetime)
@@ -432,6 +486,53 @@ def check_pair(out, rng, sa, sb, us):
                  expected=f"{exp / TICK} us +- {tol / TICK}")
     if {sa, sb} == {"TDB", "TT"} and abs(off) >= 1700:
         out.fail("tdb-tt-bound", "|TDB-TT| >= 1.7 ms", inp, observed=off)
+
+
+INTERNAL_TOL = 1.5e-6 + 4e-8      # three roundings of half a microsecond + the TDB term over ~70 s (2.4e-8 s) + float noise of `_s`
+
+
+def check_internal(out, a, b, sa, sb, inp, diff):
+    """the internal instant `(_d, _s)` — finer than a microsecond — moves by at most the three `timedelta` roundings of
+    `change_scale` (Props/C03b.lean changeScale_instant_bound_all: 1.6 us; exactly 0 between uniform scales from a whole-microsecond
+    reading).  Only where the whole-microsecond difference is within the property's limit (larger shifts are reported there)"""
+    if abs(diff) > 1:
+        return
+    sh = (b._d - a._d) * 86400.0 + (b._s - a._s)
+    lim = INTERNAL_TOL
+    if abs(sh) > lim:
+        out.fail(f"instant-internal:{'+'.join(sorted({sa, sb} & {'UT1', 'TDB'})) or 'uniform'}", "the internal instant (_d, _s) of the converted date differs from the original by more than the three roundings of change_scale allow",
+                 inp, observed=f"{sh * 1e6:.4f} us", expected=f"<= {lim * 1e6:.3f} us")
+
+
+def check_pair_float(out, rng, sa, sb, day, sec):
+    """the constructor form `Date(d, s)` with a clock reading that is NOT a whole number of microseconds, converted to another
+    scale: same instant within 1 us as `-` measures it (exactly, with ==, hash, between uniform scales), within 1.5 us internally"""
+    from beyond.dates import Date
+    a = Date(day, sec, scale=sa)
+    b = a.change_scale(sb)
+    inp = {"pair_float": [sa, sb], "day": day, "seconds": repr(sec)}
+    out.count(key=("pairf", sa, sb, day, sec), kind="pair-float-seconds", pair=f"{sa}>{sb}")
+    diff = td_us(b - a)
+    uniform = sa in UNIFORM and sb in UNIFORM
+    if uniform:
+        flags = (a == b, hash(a) == hash(b), diff == 0, a <= b, a >= b, not (a < b), not (a > b))
+        if not all(flags):
+            out.fail(family_scale_pair(a, b, sa, sb), "converted date (from a sub-microsecond clock reading) is not the same instant (==, hash, -, <=, >=, <, >)", inp,
+                     observed=[bool(x) for x in flags] + [diff], expected="all True, 0 us")
+            return
+    elif abs(diff) > 1:
+        out.fail(family_scale_pair(a, b, sa, sb, diff), "converted date (from a sub-microsecond clock reading) differs from the original instant by more than 1 us", inp,
+                 observed=f"{diff} us", expected="<= 1 us")
+        return
+    check_internal(out, a, b, sa, sb, inp, diff)
+    # the seconds of day read back are the ones given (to the float noise of `(_s - _offset) % 86400`)
+    if a.d != day or abs(a.s - sec) > 1e-9:
+        out.fail(f"ctor-day-seconds-readback:{sa}", "Date(d, s).d / .s are not the values given", inp, observed=(a.d, a.s), expected=(day, sec))
+
+
+def gen_day_sec(rng, scale):
+    us = gen_label(rng, scale)
+    return us // DAY_US, (us % DAY_US) / 1e6 + rng.choice([rng.uniform(0, 1e-6), rng.choice([0.5e-6, 0.25e-6, 0.49999e-6, 0.50001e-6, 1e-7])])
 
 
 def expected_offset(a, sa, sb):
@@ -589,6 +690,187 @@ def check_range(out, rng, scale, us, replay=None):
         if (p in rg) != exp:
             out.fail(f"range-membership:{'neg' if step < 0 else 'pos'}:{'incl' if inclusive else 'excl'}", "membership disagrees with the interval", dict(inp, probe_us=probe), observed=(p in rg), expected=exp)
             break
+
+
+# ---------------------------------------------------------------- dates derived by arithmetic carry the record of their own instant
+
+DERIVED_VIAS = ("add", "sub", "chain", "range")
+
+
+def own_midnight_band(scale, us):
+    """the clock reading `us` in `scale` lies on another UTC day than its own day number says (the first TAI-UTC / +32.184 /
+    -19 s after own-scale midnight for TAI / TT / GPS, |UT1-UTC| for UT1): where a record chosen by own-scale day is wrong"""
+    day = us // DAY_US
+    utc = us - approx_minus_utc(scale, day)
+    if scale in ("UT1",):
+        u = tables()[1].get(day)
+        utc = us - (u or 0) // TICK
+    return utc // DAY_US != day
+
+
+def derive(a, via, t, k=3):
+    """the date `t` microseconds after `a`, obtained by arithmetic on `a` (never by the constructor on a clock reading)"""
+    from beyond.dates import Date, timedelta
+    if via == "add":
+        return a + timedelta(microseconds=t)
+    if via == "sub":
+        return a - timedelta(microseconds=-t)
+    if via == "chain":
+        t1 = t // 3
+        return (a + timedelta(microseconds=t1)) + timedelta(microseconds=t - t1)
+    if via == "range":
+        # the k-th date yielded by a DateRange of step t / k (t a multiple of k)
+        step = t // k
+        rg = Date.range(a, timedelta(microseconds=step * (k + 1)), timedelta(microseconds=step))
+        for i, x in enumerate(rg):
+            if i == k:
+                return x
+        raise RuntimeError("range too short")
+    raise ValueError(via)
+
+
+def check_derived(out, scale, us, t, via):
+    """a date obtained from `Date(us, scale)` by `+` / `-` / two additions / DateRange steps is, in every observable, the date
+    constructed directly at the clock reading `us + t`: same instant (==, hash, -), same EOP record and offset, same UTC and
+    UT1 readings; and (outside leap windows) its record is the one the IERS files tabulate for the UTC day of that instant,
+    TAI-UTC read off the clocks is that column, and (d+t)-d = t"""
+    if via == "range":
+        t -= t % 3
+        if t == 0:
+            t = 3
+    a = mkdate(us, scale)
+    band_a, band_r = own_midnight_band(scale, us), own_midnight_band(scale, us + t)
+    where = "operand-in-own-midnight-band" if band_a else "result-in-own-midnight-band" if band_r else "plain"
+    same_day = us // DAY_US == (us + t) // DAY_US
+    inp = {"derived_scale": scale, "clock_us": us, "t_us": t, "via": via, "clock": str(dt_of(us)), "where": where, "same_own_day": same_day}
+    out.count(key=("derived", scale, us, t, via), kind="derived", via=via, scale=scale, where=where, same_own_day=same_day)
+    r = derive(a, via, t)
+    direct = mkdate(us + t, scale)
+    fam = f"derived-date:{{}}:{scale}:{where}"
+    uniform = scale in UNIFORM
+    rec = lambda x: (round(x.eop.tai_utc * 1e7), round(x.eop.ut1_utc * 1e7))   # noqa: E731
+    if rec(r) != rec(direct) or vars(r.eop) != vars(direct.eop):
+        out.fail(fam.format("record"), "a date obtained by arithmetic does not carry the EOP record of the date constructed directly at the same clock reading", inp,
+                 observed={"tai_utc": r.eop.tai_utc, "ut1_utc": r.eop.ut1_utc}, expected={"tai_utc": direct.eop.tai_utc, "ut1_utc": direct.eop.ut1_utc})
+        return
+    if abs(r._offset - direct._offset) > 1e-9:
+        out.fail(fam.format("offset"), "a date obtained by arithmetic does not carry the offset to TAI of the date constructed directly at the same clock reading", inp,
+                 observed=r._offset, expected=direct._offset)
+        return
+    di = td_us(r - direct)
+    flags = (r == direct, hash(r) == hash(direct), di == 0, len({r, direct}) == 1, r.scale.name == scale)
+    if uniform and not all(flags) or abs(di) > 1:
+        out.fail(fam.format("instant"), "a date obtained by arithmetic is not the instant of the date constructed directly at the same clock reading (==, hash, -, set, scale)", inp,
+                 observed=[bool(x) for x in flags] + [di], expected="all True, 0 us")
+        return
+    for sb in ("UTC", "UT1", "TAI"):
+        x, y = r.change_scale(sb), direct.change_scale(sb)
+        dd = td_us(x.datetime - y.datetime)
+        if abs(dd) > (0 if uniform and sb != "UT1" else 2) or rec(x) != rec(y):
+            out.fail(fam.format("reading-" + sb), f"the {sb} reading of a date obtained by arithmetic differs from that of the date constructed directly at the same clock reading", inp,
+                     observed=[str(x.datetime), rec(x)], expected=[str(y.datetime), rec(y)])
+            return
+    # against the IERS columns read independently
+    _, ut1, first, last = tables()
+    if in_leap_window(scale, us + t) or in_leap_window(scale, us) or not (first + 1 <= (us + t) // DAY_US <= last - 1):
+        return
+    ud = utc_day_of(r)
+    utc_tod = (us_of(r._datetime) - (leap_at(ud) or 0) // TICK) % DAY_US
+    if min(utc_tod, DAY_US - utc_tod) <= 3 or ud not in ut1:
+        return      # the day number comes from a double within 3 us of UTC midnight
+    if rec(r) != (leap_at(ud), ut1[ud]):
+        out.fail(fam.format("tabulated"), "the EOP record of a date obtained by arithmetic is not the one tabulated for its UTC day", inp,
+                 observed=rec(r), expected=(leap_at(ud), ut1[ud]))
+        return
+    if uniform:
+        tu = td_us(r.change_scale("TAI").datetime - r.change_scale("UTC").datetime) * TICK
+        if tu != leap_at(ud):
+            out.fail(fam.format("tai-utc"), "TAI-UTC read off the clocks of a date obtained by arithmetic is not the tabulated value of its UTC day", inp, observed=tu, expected=leap_at(ud))
+            return
+        if scale != "UTC" or no_leap_between(scale, min(us, us + t), max(us, us + t)):
+            if td_us(r - a) != t:
+                out.fail(fam.format("add-sub"), "(d+t)-d != t", inp, observed=td_us(r - a), expected=t)
+
+
+def gen_derived(rng, big):
+    """(scale, clock us, t us, via): operands in the band after (UT1 with UT1-UTC < 0: before) own-scale midnight where the own
+    day number is not the UTC day, sums that stay in the same own-scale day (fast paths) or leave it; the mirror (operand later
+    in the day, result in the band); every leap-second day of the finals range and random days; all six scales (UTC as control)"""
+    _, ut1, first, last = tables()
+    lds = [d for d in leap_days() if first + 3 <= d <= last - 3]
+    days = lds + [rng.randint(first + 3, last - 3) for _ in range(60 if big else 12)]
+    for day in days:
+        for scale in SCALES:
+            off = approx_minus_utc(scale, day)
+            if scale == "UT1":
+                off = (ut1.get(day) or 0) // TICK
+            lo, hi = (0, max(off, 1)) if off >= 0 else (DAY_US + off, DAY_US)
+            tods = [rng.randrange(lo, hi), lo if off >= 0 else hi - 1, (lo + hi) // 2]
+            if big:
+                tods += [rng.randrange(lo, hi) for _ in range(3)]
+            for tod in tods:
+                us = day * DAY_US + tod
+                room = DAY_US - 1 - tod if off >= 0 else -tod          # largest move that stays in the own-scale day, away from the band
+                if room == 0:
+                    continue
+                stay = [rng.randint(1, room) if room > 0 else rng.randint(room, -1) for _ in range(2)] + [(3600 * 10**6 if room > 0 else -3600 * 10**6)]
+                leave = [(-1 if off >= 0 else 1) * rng.randint(abs(tod if off >= 0 else DAY_US - tod) + 1, 2 * DAY_US), rng.choice([DAY_US, -DAY_US])]
+                for t in stay + leave[:(2 if big else 1)]:
+                    via = rng.choice(DERIVED_VIAS)
+                    yield scale, us, t, via
+                    if rng.random() < 0.5:
+                        # mirror: start from the result, come back into the band
+                        yield scale, us + t, -t, rng.choice(DERIVED_VIAS[:3])
+
+
+def check_derived_all(out, rng, big):
+    for scale, us, t, via in gen_derived(rng, big):
+        check_derived(out, scale, us, t, via)
+    # the inputs of the seeded demonstration, whatever the seed
+    for scale, us, t, via in PINNED_DERIVED:
+        check_derived(out, scale, us, t, via)
+
+
+# 2017-01-01T00:00:10 TAI + 1 h (leap-second day); 2016-06-15T00:00:05 TT + 6 h; a TAI range started at TAI midnight
+PINNED_DERIVED = [("TAI", 57754 * DAY_US + 10 * 10**6, 3600 * 10**6, "add"), ("TT", 57554 * DAY_US + 5 * 10**6, 6 * 3600 * 10**6, "add"),
+                  ("TAI", 57754 * DAY_US, 3 * 1800 * 10**6, "range"), ("GPS", 57754 * DAY_US + 10 * 10**6, 43200 * 10**6, "sub")]
+
+
+def check_ctor_forms(out, scale, us):
+    """every constructor form of the docstring gives the date the `datetime` form gives: calendar arguments, `(day, seconds)`,
+    float MJD (resolution of a double MJD: 1 us), `Date(date)`, and an int MJD at midnight"""
+    from beyond.dates import Date
+    ref = mkdate(us, scale)
+    dt = dt_of(us)
+    day, tod = us // DAY_US, us % DAY_US
+    forms = [("calendar", lambda: Date(dt.year, dt.month, dt.day, dt.hour, dt.minute, dt.second, dt.microsecond, scale=scale), 0),
+             ("day-seconds", lambda: Date(day, tod / 1e6, scale=scale), 0),
+             ("day-int-seconds", (lambda: Date(day, tod // 10**6, scale=scale)) if tod % 10**6 == 0 else None, 0),
+             ("mjd-float", lambda: Date(day + tod / DAY_US, scale=scale), 1),
+             ("copy", lambda: Date(ref), 0),
+             ("copy-of-derived", lambda: Date(derived), 0),
+             ("mjd-int", (lambda: Date(day, scale=scale)) if tod == 0 else None, 0),
+             ("lowercase-scale", lambda: Date(dt, scale=scale.lower()), 0)]
+    derived = ref.change_scale(scale)
+    for name, build, tol in forms:
+        if build is None:
+            continue
+        if name == "copy-of-derived":
+            # a copy is compared with what it copies (a UT1 / TDB date converted to its own scale may move by the rounding of its offset)
+            ref_, ref = ref, derived
+        inp = {"ctor_form": name, "scale": scale, "clock_us": us, "clock": str(dt)}
+        out.count(key=("ctor", name, scale, us), kind="ctor-form", form=name, scale=scale)
+        x = build()
+        di = td_us(x - ref)
+        near = min(tod, DAY_US - tod) <= 2 and tol      # a float MJD within its resolution of midnight may fall on the other day
+        same_rec = (round(x.eop.tai_utc * 1e7), round(x.eop.ut1_utc * 1e7)) == (round(ref.eop.tai_utc * 1e7), round(ref.eop.ut1_utc * 1e7))
+        if x.scale.name != scale or abs(di) > tol or (tol == 0 and scale in UNIFORM and not (x == ref and hash(x) == hash(ref))) \
+                or abs(td_us(x.datetime - ref.datetime)) > tol or (not same_rec and not near) or x.d != ref.d or abs(x.s - ref.s) > 1e-6 * max(tol, 1e-3):
+            out.fail(f"ctor-form:{name}:{scale if scale in ('UT1', 'TDB') else 'uniform'}", "a constructor form does not build the date the datetime form builds (scale, instant, ==, hash, clock reading, record, d/s)", inp,
+                     observed=[x.scale.name, di, str(x.datetime), x.d, x.s, x.eop.ut1_utc], expected=[scale, 0, str(ref.datetime), ref.d, ref.s, ref.eop.ut1_utc])
+            return
+        if name == "copy-of-derived":
+            ref = ref_
 
 
 class _Grab(logging.Handler):
@@ -869,6 +1151,12 @@ def oracle(ctx, widened):
                 check_pair(out, rng, sa, sb, gen_label(rng, sa))
     for sa, sb, us in PINNED_EQ + PINNED_EOP + PINNED_BAND:
         check_pair(out, rng, sa, sb, us)
+    for sa in SCALES:
+        for sb in SCALES:
+            for _ in range(60 if not big else 600):
+                day, sec = gen_day_sec(rng, sa)
+                if sec < 86400.0 - 1e-5:
+                    check_pair_float(out, rng, sa, sb, day, sec)
     for scale in SCALES:
         for _ in range(1200 if not big else 12000):
             check_arith(out, rng, scale, gen_label(rng, scale))
@@ -878,6 +1166,16 @@ def oracle(ctx, widened):
     for _ in range(2500 if not big else 25000):
         scale = rng.choice(UNIFORM)
         check_range(out, rng, scale, gen_label(rng, scale))
+    check_derived_all(out, rng, big)
+    for scale in SCALES:
+        for _ in range(80 if not big else 800):
+            us = gen_label(rng, scale)
+            if rng.random() < 0.2:
+                us -= us % 10**6
+            if rng.random() < 0.1:
+                us -= us % DAY_US
+            if not in_leap_window(scale, us):
+                check_ctor_forms(out, scale, us)
     check_policy(out, rng)
     check_boundaries(out, rng, big)
     _, _, first, last = tables()
@@ -899,6 +1197,12 @@ def replay(f):
         check_leap_day_date(out, i["leap_day"], i["delta_us"])
     elif "boundary_day" in i:
         check_day_boundary_date(out, i["boundary_day"], i["delta_us"])
+    elif "ctor_form" in i:
+        check_ctor_forms(out, i["scale"], i["clock_us"])
+    elif "pair_float" in i:
+        check_pair_float(out, rng, i["pair_float"][0], i["pair_float"][1], i["day"], float(i["seconds"]))
+    elif "derived_scale" in i:
+        check_derived(out, i["derived_scale"], i["clock_us"], i["t_us"], i["via"])
     elif "to" in i:
         check_pair(out, rng, i["scale"], i["to"], i["clock_us"])
     elif "step_us" in i:
@@ -974,6 +1278,236 @@ def eop_day_scale(tree):
     raise RuntimeError("Date.__init__: the second EOP lookup by UTC day is not there")
 
 
+# ---------------------------------------------------------------- Date / DateRange method bodies -> Generated/DateSrc.lean
+
+class SrcShape(RuntimeError):
+    """a method of Date / DateRange is not of the shape the dedicated translator knows"""
+
+
+def _unparse(n):
+    return ast.unparse(n)
+
+
+class IntTr:
+    """expressions over the integer tick model: names/attributes are looked up in `names` (python source text -> Lean text),
+    86400 / 86400.0 is `D`, `//` and `%` by a positive constant are Lean's `/` and `%` on Int, `int(x // c)` is `x / c`,
+    comparisons (chains too) become `decide`, `and` / `or` / `not` the Bool connectives; anything else raises SrcShape"""
+
+    def __init__(self, names):
+        self.names = names
+
+    def num(self, e):
+        src = _unparse(e)
+        if src in self.names:
+            return self.names[src]
+        if isinstance(e, ast.Constant) and isinstance(e.value, (int, float)) and not isinstance(e.value, bool):
+            if e.value in (86400, 86400.0):
+                return "D"
+            if float(e.value).is_integer():
+                return f"({int(e.value)} : Int)"
+            raise SrcShape(f"constant {e.value!r}")
+        if isinstance(e, ast.BinOp):
+            if isinstance(e.op, (ast.FloorDiv, ast.Mod)) and not (isinstance(e.right, ast.Constant) and e.right.value in (86400, 86400.0)):
+                raise SrcShape("// or % by something else than 86400: " + src)
+            op = {ast.Add: "+", ast.Sub: "-", ast.Mult: "*", ast.FloorDiv: "/", ast.Mod: "%"}.get(type(e.op))
+            if op is None:
+                raise SrcShape("operator in " + src)
+            return f"({self.num(e.left)} {op} {self.num(e.right)})"
+        if isinstance(e, ast.Call) and isinstance(e.func, ast.Name) and e.func.id == "int" and len(e.args) == 1 and not e.keywords \
+                and isinstance(e.args[0], ast.BinOp) and isinstance(e.args[0].op, ast.FloorDiv):
+            return self.num(e.args[0])        # int() of a floor quotient: already whole
+        raise SrcShape("expression " + src)
+
+    def boolean(self, e):
+        src = _unparse(e)
+        if src in self.names:
+            return self.names[src]
+        if isinstance(e, ast.Compare):
+            ops = {ast.Lt: "<", ast.LtE: "≤", ast.Gt: ">", ast.GtE: "≥", ast.Eq: "=", ast.NotEq: "≠"}
+            terms = [e.left] + list(e.comparators)
+            parts = []
+            for a, o, b_ in zip(terms, e.ops, terms[1:]):
+                if type(o) not in ops:
+                    raise SrcShape("comparison in " + src)
+                parts.append(f"decide ({self.num(a)} {ops[type(o)]} {self.num(b_)})")
+            return "(" + " && ".join(parts) + ")"
+        if isinstance(e, ast.BoolOp):
+            return "(" + (" && " if isinstance(e.op, ast.And) else " || ").join(self.boolean(v) for v in e.values) + ")"
+        if isinstance(e, ast.UnaryOp) and isinstance(e.op, ast.Not):
+            return f"(!{self.boolean(e.operand)})"
+        raise SrcShape("condition " + src)
+
+
+def _method(tree, cls, name):
+    node = next(n for n in tree.body if isinstance(n, ast.ClassDef) and n.name == cls)
+    fs = [f for f in node.body if isinstance(f, ast.FunctionDef) and f.name == name]
+    if len(fs) != 1:
+        raise SrcShape(f"{cls}.{name}: {len(fs)} definitions")
+    return fs[0]
+
+
+def _body(f):
+    """statements without the docstring"""
+    return [st for st in f.body if not (isinstance(st, ast.Expr) and isinstance(st.value, ast.Constant) and isinstance(st.value.value, str))]
+
+
+def _ret_tree(stmts, tr):
+    """`if c: return a  [else: return b]  return c` trees -> nested Lean `if`; every leaf a Bool expression"""
+    if not stmts:
+        raise SrcShape("falls off the end")
+    st = stmts[0]
+    if isinstance(st, ast.Return) and len(stmts) == 1:
+        return tr.boolean(st.value)
+    if isinstance(st, ast.If):
+        then = _ret_tree(st.body, tr)
+        other = _ret_tree(st.orelse if st.orelse else stmts[1:], tr)
+        if st.orelse and len(stmts) > 1:
+            raise SrcShape("statements after if/else")
+        return f"(if {tr.boolean(st.test)} then {then} else {other})"
+    raise SrcShape("statement " + _unparse(st))
+
+
+def date_src(tree):
+    """Lean text of Generated/DateSrc.lean: the arithmetic of the Date methods and the three DateRange methods, translated from
+    the AST of beyond/dates/date.py; SrcShape when a method has another shape than the one modelled in Model/Date.lean"""
+    out = []
+    # --- Date.__init__: the last two statements before the __setattr__ block
+    init = _method(tree, "Date", "__init__")
+    stmts = _body(init)
+    k = next((i for i, st in enumerate(stmts) if isinstance(st, ast.Expr) and "__setattr__" in _unparse(st)), None)
+    if k is None or k < 3:
+        raise SrcShape("Date.__init__: no __setattr__ block")
+    sets = [_unparse(st) for st in stmts[k:]]
+    exp_sets = ["super().__setattr__('_d', d)", "super().__setattr__('_s', s)", "super().__setattr__('_offset', offset)",
+                "super().__setattr__('scale', scale)", "super().__setattr__('eop', eop)", "super().__setattr__('_cache', {})"]
+    if sets != exp_sets:
+        raise SrcShape("Date.__init__: slots are not set from (d, s, offset, scale, eop) in that order: " + "; ".join(sets))
+    off_st, d_st, s_st = stmts[k - 3], stmts[k - 2], stmts[k - 1]
+    if _unparse(off_st) != "offset = scale.offset(mjd, self.REF_SCALE, eop)":
+        raise SrcShape("Date.__init__: offset statement: " + _unparse(off_st))
+    tr = IntTr({"d": "d", "s": "s", "offset": "offset"})
+    if not (isinstance(d_st, ast.AugAssign) and isinstance(d_st.op, ast.Add) and _unparse(d_st.target) == "d"
+            and isinstance(s_st, ast.Assign) and _unparse(s_st.targets[0]) == "s"):
+        raise SrcShape("Date.__init__: normalisation statements: " + _unparse(d_st) + "; " + _unparse(s_st))
+    out += ["/-- `Date.__init__`: `" + _unparse(d_st) + "; " + _unparse(s_st) + "` -/",
+            "def normaliseSrc (d s offset : Int) : Int × Int :=",
+            f"  let d' : Int := d + {tr.num(d_st.value)}",
+            f"  let s' : Int := {tr.num(s_st.value)}",
+            "  (d', s')"]
+    mjd_sts = [st for st in stmts[:k] if isinstance(st, ast.Assign) and _unparse(st.targets[0]) == "mjd"]
+    if [_unparse(st) for st in mjd_sts] != ["mjd = d + s / 86400.0"]:
+        raise SrcShape("Date.__init__: mjd")
+    # --- _convert_to_scale
+    f = _body(_method(tree, "Date", "_convert_to_scale"))
+    if [type(st) for st in f] != [ast.Assign, ast.Assign, ast.AugAssign, ast.Return] or _unparse(f[0]) != "d = self._d" \
+            or _unparse(f[1].targets[0]) != "s" or _unparse(f[2].target) != "d" or not isinstance(f[2].op, ast.Sub) or _unparse(f[3]) != "return (d, s)":
+        raise SrcShape("Date._convert_to_scale: " + "; ".join(_unparse(st) for st in f))
+    tr1 = IntTr({"self._s": "x.s", "self._offset": "x.off", "self._d": "x.d"})
+    tr2 = IntTr({"self._s": "x.s", "self._offset": "x.off", "self._d": "x.d", "s": "s'", "d": "x.d"})
+    out += ["/-- `Date._convert_to_scale` -/", "def toScaleSrc (x : Date) : Int × Int :=",
+            f"  let s' : Int := {tr1.num(f[1].value)}",
+            f"  let d' : Int := x.d - {tr2.num(f[2].value)}",
+            "  (d', s')"]
+    for prop, exp in (("d", "return self._convert_to_scale()[0]"), ("s", "return self._convert_to_scale()[1]"),
+                      ("_mjd", "return self._d + self._s / 86400.0"), ("mjd", "return self.d + self.s / 86400.0")):
+        got = "; ".join(_unparse(st) for st in _body(_method(tree, "Date", prop)))
+        if got != exp:
+            raise SrcShape(f"Date.{prop}: {got}")
+    # --- __add__
+    f = _body(_method(tree, "Date", "__add__"))
+    if len(f) != 2 or not isinstance(f[0], ast.If) or not isinstance(f[1], ast.Return):
+        raise SrcShape("Date.__add__: not `if isinstance(...): divmod / else: raise` followed by ONE return")
+    if _unparse(f[0].test) != "isinstance(other, timedelta)" or len(f[0].body) != 1 or not (len(f[0].orelse) == 1 and isinstance(f[0].orelse[0], ast.Raise)):
+        raise SrcShape("Date.__add__: guard")
+    dm = f[0].body[0]
+    if not (isinstance(dm, ast.Assign) and _unparse(dm.targets[0]) == "(days, sec)" and isinstance(dm.value, ast.Call)
+            and _unparse(dm.value.func) == "divmod" and len(dm.value.args) == 2 and _unparse(dm.value.args[1]) in ("86400", "86400.0")):
+        raise SrcShape("Date.__add__: " + _unparse(dm))
+    ret = f[1].value
+    if not (isinstance(ret, ast.Call) and _unparse(ret.func) == "self.__class__" and len(ret.args) == 2 and _unparse(ret.args[1]) == "sec"
+            and [(kw.arg, _unparse(kw.value)) for kw in ret.keywords] == [("scale", "self.scale")]):
+        raise SrcShape("Date.__add__: result is not `self.__class__(<day>, sec, scale=self.scale)`: " + _unparse(ret))
+    tr = IntTr({"other.total_seconds()": "t", "self.s": "selfS", "self.d": "selfD"})
+    tot = tr.num(dm.value.args[0])
+    tr = IntTr({"self.d": "selfD", "int(days)": f"({tot} / D)", "days": f"({tot} / D)"})
+    out += ["/-- `Date.__add__`: the `(d, s)` handed to the constructor; `t` = `other.total_seconds()` in ticks, `selfD`, `selfS` = `self.d`, `self.s` -/",
+            "def addSplitSrc (selfD selfS t : Int) : Int × Int :=", f"  ({tr.num(ret.args[0])}, {tot} % D)"]
+    # --- __sub__: negation of the timedelta then __add__; Date - Date on _datetime
+    f = _body(_method(tree, "Date", "__sub__"))
+    got = "; ".join(_unparse(st) for st in f)
+    exp = ("if isinstance(other, timedelta):\n    other = timedelta(seconds=-other.total_seconds())\nelif isinstance(other, datetime):\n    return self.datetime - other\n"
+           "elif isinstance(other, Date):\n    return self._datetime - other._datetime\nelse:\n    raise TypeError(f'Unknown operation with {type(other)}'); return self.__add__(other)")
+    if got != exp:
+        raise SrcShape("Date.__sub__: " + got)
+    # --- change_scale
+    got = [_unparse(st) for st in _body(_method(tree, "Date", "change_scale"))]
+    if got != ["offset = self.scale.offset(self._mjd, new_scale, self.eop)", "result = self.datetime + timedelta(seconds=offset)",
+               "return self.__class__(result, scale=new_scale)"]:
+        raise SrcShape("Date.change_scale: " + "; ".join(got))
+    # --- datetime / _datetime (through the cache dictionary)
+    for prop, key, exp in (("datetime", "dt_scale", "self._datetime - timedelta(seconds=self._offset)"),
+                           ("_datetime", "dt", "self.MJD_T0 + timedelta(days=self._d, seconds=self._s)")):
+        f = _body(_method(tree, "Date", prop))
+        got = "; ".join(_unparse(st) for st in f)
+        if got != f"if '{key}' not in self._cache.keys():\n    self._cache['{key}'] = {exp}; return self._cache['{key}']":
+            raise SrcShape(f"Date.{prop}: {got}")
+    # --- comparisons and hash: all on `_datetime`
+    ops = {"__gt__": ">", "__ge__": "≥", "__lt__": "<", "__le__": "≤", "__eq__": "="}
+    pyop = {"__gt__": ">", "__ge__": ">=", "__lt__": "<", "__le__": "<=", "__eq__": "=="}
+    for name, op in ops.items():
+        got = "; ".join(_unparse(st) for st in _body(_method(tree, "Date", name)))
+        if got != f"return self._datetime {pyop[name]} other._datetime":
+            raise SrcShape(f"Date.{name}: {got}")
+        out += [f"/-- `Date.{name}` -/", f"def {name.strip('_')}Src (x y : Date) : Bool := decide (x.datetimeRef {op} y.datetimeRef)"]
+    got = "; ".join(_unparse(st) for st in _body(_method(tree, "Date", "__hash__")))
+    if got != "return hash(self._datetime)":
+        raise SrcShape("Date.__hash__: " + got)
+    out += ["/-- `Date.__hash__` hashes -/", "def hashKeySrc (x : Date) : Int := x.datetimeRef"]
+    cls = next(n for n in tree.body if isinstance(n, ast.ClassDef) and n.name == "Date")
+    if any(isinstance(f, ast.FunctionDef) and f.name == "__ne__" for f in cls.body):
+        raise SrcShape("Date.__ne__ defined")
+    # --- DateRange
+    rnames = {"self.step.total_seconds()": "r.step", "self.inclusive": "(r.incl == true)", "self.start": "r.start", "self.stop": "r.stop", "date": "date",
+              "0": "(0 : Int)"}
+    out += ["/-- `DateRange.__contains__` -/", "def containsSrc (r : Range) (date : Int) : Bool :=",
+            "  " + _ret_tree(_body(_method(tree, "DateRange", "__contains__")), IntTr(rnames))]
+    f = _body(_method(tree, "DateRange", "__iter__"))
+    if len(f) != 3 or _unparse(f[0]) != "date = self.start" or not isinstance(f[1], ast.If) or not isinstance(f[2], ast.While):
+        raise SrcShape("DateRange.__iter__: " + "; ".join(_unparse(st) for st in f))
+    if _unparse(f[2].test) != "getattr(date, oper)(self.stop)" or [_unparse(st) for st in f[2].body] != ["yield date", "date += self.step"] or f[2].orelse:
+        raise SrcShape("DateRange.__iter__: loop: " + _unparse(f[2]))
+    sel = f[1]
+    if len(sel.body) != 1 or len(sel.orelse) != 1:
+        raise SrcShape("DateRange.__iter__: operator selection")
+
+    def oper(st):
+        if not (isinstance(st, ast.Assign) and _unparse(st.targets[0]) == "oper" and isinstance(st.value, ast.IfExp)
+                and isinstance(st.value.body, ast.Constant) and isinstance(st.value.orelse, ast.Constant)):
+            raise SrcShape("DateRange.__iter__: " + _unparse(st))
+        a, b_ = (f"decide (date {ops[c.value]} r.stop)" for c in (st.value.body, st.value.orelse))
+        return f"(if {IntTr(rnames).boolean(st.value.test)} then {a} else {b_})"
+    out += ["/-- the loop condition of `DateRange.__iter__`: `getattr(date, oper)(self.stop)` -/", "def condSrc (r : Range) (date : Int) : Bool :=",
+            f"  if {IntTr(rnames).boolean(sel.test)} then {oper(sel.body[0])} else {oper(sel.orelse[0])}"]
+    f = _body(_method(tree, "DateRange", "__len__"))
+    got = "; ".join(_unparse(st) for st in f)
+    if got != "if self.inclusive and self.dur % self.step == timedelta(0):\n    plus = 1\nelse:\n    plus = 0; return int(ceil(self.dur / self.step)) + plus":
+        raise SrcShape("DateRange.__len__: " + got)
+    if "; ".join(_unparse(st) for st in _body(_method(tree, "DateRange", "dur"))) != "return self.stop - self.start":
+        raise SrcShape("DateRange.dur")
+    out += ["/-- `DateRange.__len__` (`dur = stop - start`; `ceil` of the quotient of two timedeltas) -/", "def lenSrc (r : Range) : Int :=",
+            "  ceilDiv (r.stop - r.start) r.step + (if r.incl ∧ (r.stop - r.start) % r.step = 0 then 1 else 0)"]
+    f = _body(_method(tree, "DateRange", "__init__"))
+    got = [_unparse(st) for st in f]
+    exp = ["if isinstance(stop, timedelta):\n    stop = start + stop", "if not step:\n    raise ValueError('Null step')",
+           "if self._sign(stop - start) != self._sign(step):\n    raise ValueError('start/stop order not coherent with step')",
+           "self.start = start", "self.stop = stop", "self.step = step", "self.inclusive = inclusive"]
+    if [g for g in got if not g.startswith("'")] != exp:
+        raise SrcShape("DateRange.__init__: " + "; ".join(got))
+    if "; ".join(_unparse(st) for st in _body(_method(tree, "DateRange", "_sign"))) != "return (-1, 1)[x.total_seconds() >= 0]":
+        raise SrcShape("DateRange._sign")
+    return out
+
+
 def _lean_str(line):
     if any(ord(c) < 32 or ord(c) > 126 or c in "'\\" for c in line):
         raise RuntimeError("unexpected character in an IERS file line")
@@ -1002,6 +1536,11 @@ def extract(ctx):
            "end BeyondVerif.Generated", ""]
     if core.write_if_changed(os.path.join(core.LEAN, "BeyondVerif", "Generated", "Scales.lean"), "\n".join(txt)):
         ch.append("Generated/Scales.lean")
+    # the arithmetic of the Date methods and the DateRange methods, translated from the AST
+    txt = ["/- GENERATED by harness/props/C03.py (date_src) from beyond/dates/date.py — do not edit. -/",
+           "import BeyondVerif.Model.Date", "namespace BeyondVerif.Generated.DateSrc", "open BeyondVerif.Date"] + date_src(tree) + ["end BeyondVerif.Generated.DateSrc", ""]
+    if core.write_if_changed(os.path.join(core.LEAN, "BeyondVerif", "Generated", "DateSrc.lean"), "\n".join(txt)):
+        ch.append("Generated/DateSrc.lean")
     # the TDB-TT formula, translated from the AST
     consts = {"Date.JD_MJD": f"({dconst['JD_MJD']!r} : R)", "Date.J2000": f"({dconst['J2000']!r} : R)", "cls.J2000": f"({dconst['J2000']!r} : R)"}
     funcs = {"Date._julian_century": "julianCentury"}
@@ -1250,6 +1789,97 @@ def readers_correspondence(ctx, out):
                          observed=str(real)[:300], expected=str(model)[:300])
 
 
+def exact_minus_utc_ticks(scale, day):
+    """own clock minus UTC clock in ticks for a UTC day, from the independent tables (None for TDB)"""
+    tai = leap_at(day)
+    if tai is None:
+        return None
+    return {"UTC": 0, "TAI": tai, "TT": tai + 321840000, "GPS": tai - 190000000, "UT1": tables()[1].get(day)}.get(scale)
+
+
+def dbl_correspondence(ctx, out):
+    """which EOP record the constructor picks, decided by doubles: the real `Date(d, s)`, `Date(mjd)`, `Date(datetime)` against
+    Model/DateDbl.lean (the same computation in exact binary64 arithmetic) — exactly, on the set where the exact-day model of
+    Model/Date.lean and the code can differ: own clock readings whose UTC reading is within 2 us of UTC midnight, on a 0.1-us
+    grid, +- a few ulps of the double at midnight itself, and anywhere else in the day as control.  Every scale but TDB (its term
+    goes through numpy.sin)."""
+    from beyond.dates import Date
+    rng = ctx.rng
+    _, ut1, first, last = tables()
+    lds = [d for d in leap_days() if first + 3 <= d <= last - 3]
+    days = lds[-4:] + [rng.choice(lds)] + [rng.randint(first + 3, last - 3) for _ in range(ctx.n(25, 250))]
+    cases = []      # (line, thunk, kind, position)
+    for day in days:
+        for sc in ("UTC", "TAI", "TT", "GPS", "UT1"):
+            off = exact_minus_utc_ticks(sc, day)
+            if off is None:
+                continue
+            # own clock reading (ticks since own midnight of `day`) of 00:00:00 UTC of `day`
+            deltas = [k for k in range(-20, 21, 1)] if rng.random() < 0.35 else sorted({0, 1, -1, rng.randint(-20, 20), rng.randint(-8, 8), rng.randint(-8, 8)})
+            for dl in deltas:
+                t = off + dl                     # ticks after own midnight of `day`
+                d, tt = day + t // DAY_T, t % DAY_T
+                sf = tt / 1e7
+                pos = "utc-midnight" if dl == 0 else "within-0.7us" if abs(dl) < 7 else "within-2us"
+                cases.append((d, sf, sc, "day-seconds", pos))
+                if dl == 0:
+                    for n in (-2, -1, 1, 2):     # neighbouring doubles of the reading at UTC midnight
+                        x = sf
+                        for _ in range(abs(n)):
+                            x = math.nextafter(x, math.inf if n > 0 else -math.inf)
+                        cases.append((d, x, sc, "day-seconds", "utc-midnight-ulps"))
+                    if sc == "UTC":
+                        cases.append((d, -1e-7, sc, "day-seconds", "negative-seconds"))
+                        cases.append((d - 1, 86400.0, sc, "day-seconds", "seconds-86400"))
+                if rng.random() < 0.25:
+                    mjd = d + sf / 86400.0
+                    dd = int(mjd)
+                    cases.append((dd, (mjd - dd) * 86400, sc, "mjd-float", pos))
+            cases.append((day, rng.uniform(100.0, 86300.0), sc, "day-seconds", "mid-day"))
+            # Date(datetime): whole microseconds around the same place
+            for dl_us in (-2, -1, 0, 1, 2):
+                us = day * DAY_US + off // TICK + dl_us
+                cases.append((us, None, sc, "datetime", "utc-midnight" if dl_us == 0 and off % TICK == 0 else "within-2us"))
+    lines = []
+    for a, sf, sc, form, pos in cases:
+        if form == "datetime":
+            lines.append(f"d3dbldt error {sc} {a}")
+        else:
+            n, dn = sf.as_integer_ratio()
+            lines.append(f"d3dbl error {sc} {a} {n} {dn}")
+    model = core.Driver(ID).run(lines)
+    # the exact-day model (integer ticks) on the same inputs where the seconds are a whole number of ticks: it may differ from
+    # the binary64 model only when the UTC reading is less than 0.7 us from midnight (Props/C03d.lean day_of_double)
+    tick_cases = [(i, c) for i, c in enumerate(cases) if c[3] == "day-seconds" and c[1] >= 0 and abs(c[1] * 1e7 - round(c[1] * 1e7)) < 1e-4]
+    exact = core.Driver(ID).run([f"d3mk error {c[2]} {c[0]} {round(c[1] * 1e7)}" for _, c in tick_cases])
+    for (i, c), e in zip(tick_cases, exact):
+        m = model[i]
+        same = (e.split()[5:7] == m.split()[1:3]) if (e.startswith("ok") and m.startswith("ok")) else (e.startswith("err") == (m == "raised"))
+        out.count(key=("dbl-vs-exact", lines[i]), kind="double-day-vs-exact-day", position=c[4], agree=same)
+        if not same and c[4] not in ("utc-midnight", "within-0.7us", "utc-midnight-ulps"):
+            out.fail(f"double-day-vs-exact:{c[4]}", "the binary64 model and the exact-day model pick different records 0.7 us or more away from UTC midnight", lines[i], observed=m, expected=e)
+    set_policy("error")
+    try:
+        for (a, sf, sc, form, pos), line, m in zip(cases, lines, model):
+            try:
+                if form == "datetime":
+                    x = mkdate(a, sc)
+                elif form == "mjd-float":
+                    x = Date(a + sf / 86400.0, scale=sc) if int(a + sf / 86400.0) == a and (a + sf / 86400.0 - a) * 86400 == sf else Date(a, sf, scale=sc)
+                else:
+                    x = Date(a, sf, scale=sc)
+                real = "ok %d %d" % (round(x.eop.tai_utc * 1e7), round(x.eop.ut1_utc * 1e7))
+            except Exception:  # noqa: BLE001
+                real = "raised"
+            mm = " ".join(m.split()[:3]) if m.startswith("ok") else m
+            branch = "-" if not m.startswith("ok") else ("utc" if m.split()[4] == "-" else "second-lookup" if m.split()[4] != m.split()[3] else "same-day")
+            out.count(key=line, kind="double-day", scale=sc, form=form, position=pos, branch=branch)
+            if real != mm:
+                out.fail(f"double-day:{form}:{pos}", "the EOP record picked by the constructor (day number from a double) differs from the exact binary64 model", line, observed=real, expected=m)
+    finally:
+        set_policy("pass")
+
+
 def correspondence(ctx):
     setup()
     from beyond.dates import Date, timedelta
@@ -1489,6 +2119,7 @@ def correspondence(ctx):
         log.setLevel(old_level)
 
     readers_correspondence(ctx, out)
+    dbl_correspondence(ctx, out)
 
     # DateRange vs the model on instants
     rng_cases = []
